@@ -45,17 +45,97 @@ theorem hasSuffix_singleton_iff (s : List B) (d : B) :
     hasSuffix s [d] = true ↔ s.getLast? = some d := by
   simp [hasSuffix_singleton]
 
-theorem matchList_eq_matchNFA' (delim : Option B) (pat name : List B) :
-    matchList delim pat name = matchNFA delim pat name := by
-  sorry
-
-theorem top_delim (name : List B) (d : B) (reference pattern : List B) :
+/-- single-byte delimiter: `MatchList` resolves (reference, pattern) as documented, provided the
+    recursive matcher agrees with the position-set matcher -/
+theorem top_delim_of (name : List B) (d : B) (reference pattern : List B)
+    (hm : ∀ pat nm, matchList (some d) pat nm = matchNFA (some d) pat nm) :
     matchListTop name [d] (some d) reference pattern = resolveMatch name (some d) reference pattern := by
   cases pattern with
   | nil =>
-    simp [matchListTop, stripPrefix?, resolveMatch, resolveMatch.resolveRel, hasSuffix_singleton, matchList_eq_matchNFA']
-    trace_state
-    sorry
-  | cons p ps => sorry
+    simp [matchListTop, stripPrefix?, resolveMatch, resolveMatch.resolveRel, hasSuffix_singleton, hm]
+    rfl
+  | cons p ps =>
+    by_cases hpd : p = d
+    · subst hpd
+      simp [matchListTop, stripPrefix?, resolveMatch, hm]
+    · have hdp : ¬ d = p := fun h => hpd h.symm
+      simp [matchListTop, stripPrefix?, resolveMatch, resolveMatch.resolveRel, hasSuffix_singleton, hm, hpd, hdp]
+      rfl
+
+/-- no delimiter -/
+theorem top_nodelim_of (name : List B) (reference pattern : List B)
+    (hm : ∀ pat nm, matchList none pat nm = matchNFA none pat nm) :
+    matchListTop name [] none reference pattern = resolveMatch name none reference pattern := by
+  simp [matchListTop, resolveMatch, resolveMatch.resolveRel, hm]
+  rfl
+
+/-! ### relational reading of the documented resolution -/
+
+theorem resolveRel_nil_ref (name : List B) (delim : Option B) (pattern : List B) :
+    resolveMatch.resolveRel name delim [] pattern = matchNFA delim pattern name := by
+  simp [resolveMatch.resolveRel]
+
+/-- with a non-empty reference completed to `r`: `r` is stripped from the name -/
+theorem resolveRel_strip_iff (name : List B) (delim : Option B) (reference pattern r : List B)
+    (href : reference ≠ [])
+    (hr : r = match delim with
+      | some d => if reference.getLast? = some d then reference else reference ++ [d]
+      | none => reference) :
+    resolveMatch.resolveRel name delim reference pattern = true ↔
+      ∃ rest, name = r ++ rest ∧ Matches delim pattern rest := by
+  subst hr
+  simp only [resolveMatch.resolveRel, List.isEmpty_iff, href, if_false]
+  split
+  · rename_i hs
+    simp only [Bool.false_eq_true, false_iff]
+    rintro ⟨rest, hrest, _⟩
+    exact stripPrefix?_eq_none.mp hs rest hrest
+  · rename_i rest hs
+    have hn := stripPrefix?_eq_some.mp hs
+    rw [matchNFA_iff_matches]
+    constructor
+    · intro h; exact ⟨rest, hn, h⟩
+    · rintro ⟨rest', hrest', h⟩
+      have : rest = rest' := List.append_cancel_left (hn.symm.trans hrest')
+      rw [this]; exact h
+
+theorem resolveRel_some_iff (name : List B) (d : B) (reference pattern : List B) :
+    resolveMatch.resolveRel name (some d) reference pattern = true ↔
+      ∃ rest, name = (if reference = [] ∨ reference.getLast? = some d then reference
+                      else reference ++ [d]) ++ rest ∧ Matches (some d) pattern rest := by
+  by_cases href : reference = []
+  · subst href
+    simp [resolveRel_nil_ref, matchNFA_iff_matches]
+  · rw [resolveRel_strip_iff name (some d) reference pattern _ href rfl]
+    simp only [href, false_or]
+
+theorem resolveRel_none_iff (name : List B) (reference pattern : List B) :
+    resolveMatch.resolveRel name none reference pattern = true ↔
+      ∃ rest, name = reference ++ rest ∧ Matches none pattern rest := by
+  by_cases href : reference = []
+  · subst href
+    simp [resolveRel_nil_ref, matchNFA_iff_matches]
+  · exact resolveRel_strip_iff name none reference pattern _ href rfl
+
+/-- absolute pattern (starts with the delimiter): the reference is ignored -/
+theorem resolveMatch_abs (name : List B) (d : B) (reference ps : List B) :
+    resolveMatch name (some d) reference (d :: ps) = matchNFA (some d) ps name := by
+  simp [resolveMatch]
+
+/-- relative pattern -/
+theorem resolveMatch_rel_some (name : List B) (d : B) (reference pattern : List B)
+    (h : pattern.head? ≠ some d) :
+    resolveMatch name (some d) reference pattern =
+      resolveMatch.resolveRel name (some d) reference pattern := by
+  cases pattern with
+  | nil => simp [resolveMatch]
+  | cons p ps =>
+    have hpd : ¬ p = d := by simpa using h
+    simp [resolveMatch, hpd]
+
+theorem resolveMatch_none (name : List B) (reference pattern : List B) :
+    resolveMatch name none reference pattern =
+      resolveMatch.resolveRel name none reference pattern := by
+  simp [resolveMatch]
 
 end GoImap.ListMatchLemmas
